@@ -49,6 +49,7 @@ fn op_kind(op: &Op) -> String {
         Op::Barrier(Barrier::Fb(Some(_), _)) => "barrier:fb(p,c)".into(),
         Op::Barrier(Barrier::Fbw(None, _)) => "barrier:fbw(-,c)".into(),
         Op::Barrier(Barrier::Fbw(Some(_), _)) => "barrier:fbw(p,c)".into(),
+        Op::Barrier(Barrier::CellSet(_)) => "barrier:cellset(p)".into(),
         Op::Store { path, v, .. } => format!(
             "store:{}:{}",
             path.name(),
@@ -107,6 +108,7 @@ impl Coverage {
                     Barrier::Bbw(p, c) => (Some(*p), Some(*c)),
                     Barrier::Fb(p, c) => (*p, Some(*c)),
                     Barrier::Fbw(p, c) => (*p, Some(*c)),
+                    Barrier::CellSet(p) => (Some(*p), None),
                 };
                 self.bump(format!("barrier×phase×parent×child|{}|{}|{}|{}", kind, ph, p.map(col).unwrap_or("-".into()), c.map(col).unwrap_or("-".into())));
             }
